@@ -116,12 +116,20 @@ class SimFS:
         self.exists_true = []  # arguments for which exists() answered True (path-collision evidence)
         self.no_collision = False  # fault removed: the path-or-string test never finds a source text on disk
 
+    def canon(self, p):
+        """Alternative spellings of a simulated path (doubled slash, /./ segment) name the same file."""
+        if isinstance(p, str) and p.startswith(SIM_ROOT) and ("//" in p or "/./" in p):
+            import posixpath
+            return posixpath.normpath(p)
+        return p
+
     def owns(self, p):
         """Is this path part of the simulated world (else the real file system answers)?"""
         return isinstance(p, str) and (p.startswith(SIM_ROOT) or p in self.files or p in self.dirs or p in self.faults)
 
     def stat(self, p):
         import stat as _stat
+        p = self.canon(p)
         if p in self.dirs:
             return _real_os.stat_result((_stat.S_IFDIR | 0o755, 1, 1, 1, 0, 0, 4096, 0, 0, 0))
         if p in self.files and self.faults.get(p) != "ENOENT":
@@ -131,6 +139,7 @@ class SimFS:
     def exists(self, p):
         if not isinstance(p, (str, bytes)):
             return False
+        p = self.canon(p)
         hit = p in self.files or p in self.dirs
         if hit and self.no_collision:
             return False
@@ -139,6 +148,7 @@ class SimFS:
         return hit
 
     def open(self, p, mode="r", buffering=-1, encoding=None, errors=None, newline=None, **_kw):
+        p = self.canon(p)
         self.opens += 1
         self.stats["open"] += 1
         fault = self.faults.get(p)
